@@ -54,7 +54,7 @@ def generate(rng, tier, shard, nshards):
                 tri.append(x if np.any(x[1:]) else np.array([1.0, 2.0, 0.0, -1.0]))
         else:
             tri = [gens.unit(rng) * gens.logu(rng, 1e-2, 1e2) for _ in range(3)]
-        yield Case("all", reg, a=tri[0], b=tri[1], c=tri[2], v=gens.vec3(rng), versor=(reg == "versor") or bool(i % 2 and reg == "special"))
+        yield Case("all", reg, a=tri[0], b=tri[1], c=tri[2], v=gens.vec3(rng), versor=(reg == "versor") or bool(i % 2 and reg in ("special", "near_unit")))
 
 
 def nontrivial(case):
